@@ -40,3 +40,35 @@ Example C08_priority_example :
   look (OVER [leaf [((2, 1, 0), 7)]; leaf [((2, 1, 0), 9); ((2, 3, 3), 10)]]) (2, 1, 0) = Ok (Some 7)
   /\ look (OVER [leaf [((2, 1, 0), 7)]; leaf [((2, 1, 0), 9); ((2, 3, 3), 10)]]) (2, 3, 3) = Ok (Some 10).
 Proof. split; vm_compute; reflexivity. Qed.
+
+(* ---- the encoding side: "re-encoded to the compression the overlay declares" ---- *)
+From VT Require Import Model.Recompress Proofs.RecompressProofs Model.OverlayComp Proofs.OverlayCompProofs.
+
+(* the overlay declares the sources' common compression, and "uncompressed" as soon as two differ *)
+Theorem C08_declared_common : forall c cs, cs <> [] -> Forall (eq c) cs -> declared cs = c.
+Proof. exact declared_common. Qed.
+Print Assumptions C08_declared_common.
+Theorem C08_declared_mixed : forall cs a b, In a cs -> In b cs -> a <> b -> declared cs = CU.
+Proof. exact declared_mixed. Qed.
+Print Assumptions C08_declared_mixed.
+
+(* whatever the sources' compressions are (any lawful gzip / brotli codecs): the tile handed out
+   decodes, with the declared compression, to the decoded tile of the first source that has one *)
+Theorem C08_reencoded : forall gz br, lawful gz -> lawful br -> forall pre c b post p,
+  Forall (fun s => snd s = None) pre -> decompress gz br c b = Some p ->
+  let srcs := pre ++ (c, Some b) :: post in
+  exists b', overlay_answer gz br srcs = Some (Some b') /\ decompress gz br (declared (map fst srcs)) b' = Some p.
+Proof. exact overlay_answer_first. Qed.
+Print Assumptions C08_reencoded.
+Theorem C08_absent : forall gz br srcs, Forall (fun s => snd s = None) srcs -> overlay_answer gz br srcs = Some None.
+Proof. exact overlay_answer_none. Qed.
+Print Assumptions C08_absent.
+Theorem C08_error_only_on_undecodable : forall gz br srcs, overlay_answer gz br srcs = None ->
+  exists c b, first_tile srcs = Some (c, b) /\ decompress gz br c b = None.
+Proof. exact overlay_answer_error. Qed.
+Print Assumptions C08_error_only_on_undecodable.
+
+Example C08_mixed_example :
+  declared [CG; CG; CB] = CU /\ declared [CB; CB] = CB /\
+  overlay_answer (framed 1) (framed 2) [(CG, None); (CB, Some [2; 7; 7]%N); (CG, Some [1; 9]%N)] = Some (Some [7; 7]%N).
+Proof. repeat split; vm_compute; reflexivity. Qed.
